@@ -1,12 +1,16 @@
 import CookModel.Driver.Num
+import CookModel.Driver.Convert
 import CookModel.Driver.Syntax
+import CookModel.Driver.Aisle
 import CookModel.Driver.Ffi
 import CookModel.Driver.Serde
 /- Registry of line-protocol handlers. One line per area. -/
 namespace Cook.Driver
 def handlers : List (List String → Option String) := [
   handleNum,
+  handleConvert,
   handleSyntax,
+  handleAisle,
   handleFfi,
   handleSerde
 ]
